@@ -140,7 +140,8 @@ def step(rig: PairRig, e: t.Dict[str, t.Any]) -> t.List[t.Tuple[str, str, str]]:
                 v = proj.to_abstract(m)
                 exp = sent.popleft() if sent else None
                 if v != exp:
-                    diffs.append(("C02", f"returned-value/{role}", f"{where}: a returned {proj.kind_of(m)} differs from the message that was sent"))
+                    for prop_ in ("C02", "C11"):
+                        diffs.append((prop_, f"returned-value/{role}", f"{where}: a returned {proj.kind_of(m)} differs from the message that was sent"))
                 rig.returned.append((m, v))
         else:
             sent.clear()
